@@ -157,7 +157,7 @@ func WorkerMain(args []string) int {
 		last = idx
 		for _, f := range fails {
 			sigCounts[f.Sig]++
-			if sigCounts[f.Sig] <= 2 {
+			if sigCounts[f.Sig] <= 3 {
 				emit(wireFail{T: "fail", Idx: idx, Family: family, Case: raw, Fail: f})
 			}
 		}
@@ -219,7 +219,8 @@ type ReplayFile struct {
 
 type agg struct {
 	sum       wireSum
-	fails     map[string]*wireFail // smallest idx per sig
+	fails     map[string]*wireFail   // smallest idx per sig
+	alts      map[string][]*wireFail // every reported case per sig (each worker reports its first few): candidates of the determinism gate
 	sigCounts map[string]int64
 }
 
@@ -320,6 +321,13 @@ func runShard(self, id, tier string, shard, nsh int, deadline int64, a *agg, mu 
 					if old, ok := a.fails[f.Fail.Sig]; !ok || f.Idx < old.Idx {
 						ff := f
 						a.fails[f.Fail.Sig] = &ff
+					}
+					if a.alts == nil {
+						a.alts = map[string][]*wireFail{}
+					}
+					if len(a.alts[f.Fail.Sig]) < 64 {
+						ff := f
+						a.alts[f.Fail.Sig] = append(a.alts[f.Fail.Sig], &ff)
 					}
 					mu.Unlock()
 				}
@@ -523,18 +531,51 @@ func CheckMain(id, tier string) int {
 			lines = append(lines, fmt.Sprintf("KNOWN-FINDING: property=%s %s [sig=%s cases=%d]", id, kf.What, s, a.sum.SigCounts[s]))
 			continue
 		}
-		// determinism gate: the failure must reproduce identically in fresh processes
+		// determinism gate: the failure must reproduce identically in fresh processes. The smallest case is tried
+		// first; when it does not reproduce (its failure may have depended on state left behind by an earlier case
+		// of the same worker process), the other reported cases of the signature are tried, smallest first.
 		if s != "hang" && s != "crash" {
-			ok := true
-			for k := 0; k < 2; k++ {
-				code, out := runReplay(self, path, 300)
-				if code != 1 {
-					ok = false
-					lines = append(lines, fmt.Sprintf("ERROR nondeterministic replay sig=%s (replay exit %d) replay=%s\n%s", s, code, path, tail(out, 600)))
+			cands := []*wireFail{f}
+			alts := append([]*wireFail{}, a.alts[s]...)
+			sort.Slice(alts, func(i, j int) bool { return alts[i].Idx < alts[j].Idx })
+			for _, x := range alts {
+				if x.Idx != f.Idx && len(cands) < 6 {
+					cands = append(cands, x)
+				}
+			}
+			ok := false
+			firstErr := ""
+			for ci, cand := range cands {
+				cpath := path
+				if ci > 0 {
+					crf := ReplayFile{Property: id, Tier: tier, Family: cand.Family, Idx: cand.Idx, Case: cand.Case, Failure: cand.Fail, Count: a.sum.SigCounts[s]}
+					cb, _ := json.MarshalIndent(crf, "", " ")
+					ch := sha1.Sum(append([]byte(s), cand.Case...))
+					cpath = filepath.Join(replayDir, fmt.Sprintf("%x.json", ch[:6]))
+					os.WriteFile(cpath, cb, 0o644)
+				}
+				good := true
+				for k := 0; k < 2; k++ {
+					code, out := runReplay(self, cpath, 300)
+					if code != 1 {
+						good = false
+						if firstErr == "" {
+							firstErr = fmt.Sprintf("ERROR nondeterministic replay sig=%s (replay exit %d) replay=%s\n%s", s, code, cpath, tail(out, 600))
+						}
+						break
+					}
+				}
+				if good {
+					ok = true
+					if ci > 0 {
+						lines = append(lines, fmt.Sprintf("NOTE sig=%s: the smallest failing case (index %d) did not reproduce in a fresh process, case index %d does", s, f.Idx, cand.Idx))
+					}
+					f, path = cand, cpath
 					break
 				}
 			}
 			if !ok {
+				lines = append(lines, firstErr)
 				harnessErr = true
 				continue
 			}
